@@ -345,5 +345,5 @@ class TableRow(Mapping[str, object]):
 def _int_or_zero(arg: object) -> int:
     try:
         return to_int(arg)
-    except ValueError:
+    except (ValueError, TypeError):
         return 0
